@@ -74,6 +74,11 @@ BUILT = {
             "For every generated history (all sequences up to the stated length over block-building, idle blocks, commit and reorg that contain a successful commit) followed by a victim (commit, reorg 1 / 2 / W blocks back, finalisation of a block) the victim's persistent writes are counted on the real code and a crash (panic in front of the write, every handle dropped, directory reopened) is placed before each write and after the last one; for every eligible recovery height (committed before the crash, not above an attempted reorg target, inside the window) brc20_reorg must succeed and every answer of every read method must equal a fresh replay of the surviving history, also after one more block; a crash inside finalisation must lose only uncommitted work.",
             "Crash model of the statement: process death between two RocksDB calls (the WAL makes exactly the completed writes visible); torn / unsynced writes after power loss are outside the property. Histories bounded in length.",
             "DESIGN.md §4 C04"),
+    "C09": ("requests", "exploration",
+            "complete enumeration of a finite request / byte-string grid on the real dispatch table in watched worker processes (panic, hang and wedge detection)",
+            "For every registered method a valid request and every request with one (thorough: two) parameter deviating over a fixed menu (boundary integers, negative, float, empty / odd / non-hex / megabyte strings, every compression prefix, truncated frames, bombs, null / bool / array / object, missing) in 3 (thorough: 6) engine states; every byte string of length <= 2 as init code, as runtime code, as call data and as input of each custom precompile (quick: all of length <= 1 plus a rotating 1/16 of length 2); ABI grids of the custom precompiles called directly and through a contract; 0xfc / 0xfd with complete override sets (self-referential, coinbase, zero-input, vout out of range, garbage). A case is a violation if the handler panics, if the worker process dies, if there is no answer within the watchdog, or if the liveness round afterwards (read, clearCaches, mine, read) fails.",
+            "In-process dispatch (parameter decoding + handler bodies), not the HTTP transport. Bitcoin-RPC-backed paths only with complete overrides. One known finding (brc20_mine with a count >= 2^32-1) is reported as KNOWN-FINDING.",
+            "DESIGN.md §4 C09"),
 }
 
 NOT_BUILT_REASON = "check not built yet in this round (planned in DESIGN.md §4); nothing is claimed for it"
@@ -113,6 +118,8 @@ def main():
              "kind_free_text": "history explorer: exhaustive enumeration of call sequences on the real engine (wipe + replay), protocol automaton + normal-form differential oracle"},
             {"name": "crash", "path": "/verif/mc/src/props/c04.rs", "serves_properties": [p for p in props if p in BUILT and BUILT[p][0] == "crash"],
              "kind_free_text": "crash-point enumerator over the persistent writes of commit / reorg / finalise (failpoints of hook H2), real close + reopen"},
+            {"name": "requests", "path": "/verif/mc/src/props/c09.rs", "serves_properties": [p for p in props if p in BUILT and BUILT[p][0] == "requests"],
+             "kind_free_text": "request-grid enumerator: worker processes watched by the parent (hang = no progress), panic capture, liveness rounds"},
             {"name": "store", "path": "/verif/mc/src/props/c13.rs", "serves_properties": [p for p in props if p in BUILT and BUILT[p][0] == "store"],
              "kind_free_text": "component explorer: BFS over the real store components against reference models; complete value grids through the real codecs"},
         ],
